@@ -765,6 +765,8 @@ SnapViol(s, R) ==
 \* handlers): "ignore" = no state change and no reply; "abort" = answered with ABORT (protocol violation)
 AdvIgnore == {"sack-cum-beyond-sent", "sack-cum-far-beyond", "sack-cum-behind", "sack-gap-start-zero", "sack-gap-reversed",
               "sack-gap-beyond-inflight", "sack-gap-65535", "sack-gaps-unsorted-overlap", "sack-gaps-first-beyond", "sack-gaps-middle-beyond",
+              "unknown-00-len0", "unknown-00-len3", "unknown-01-len0", "unknown-01-len3", "unknown-10-len0", "unknown-10-len3", "unknown-10-beyond",
+              "unknown-11-len0", "unknown-11-len3", "unknown-11-beyond",
               "fwd-odd-length", "data-header-truncated", "unknown-chunk-type", "unknown-chunk-report-bit",
               "init-bundled", "init-zero-streams", "cookie-ack", "shutdown-complete",
               "error-cause-bad-length", "reconfig-response-unknown", "reconfig-unknown-param", "reconfig-empty",
